@@ -204,6 +204,39 @@ def session_full_runs(ctx, viol, dist):
     return runs
 
 
+def deep_restore_case(n1=950, n2=120, cut=(949, 110), pops=400):
+    """C08 for a long session: one structure of two variables with hundreds of probability groups each, saved at a position whose
+    already-guessed region reaches a pre-terminal whose indices add up to more than a thousand (the restore walks one call deeper per
+    index step in every position).  The resumed queue hands out exactly the most probable pre-terminals at or below the saved position"""
+    common.use_impl()
+    a = [0.5 * 0.9995 ** i for i in range(n1)]
+    b = [0.5 * 0.99 ** j for j in range(n2)]
+    spec = {'terminals': {'D4': [['%04d' % i, repr(x)] for i, x in enumerate(a)], 'D3': [['%03d' % j, repr(x)] for j, x in enumerate(b)]},
+            'grammar': [['D4D3', '1.0']], 'omen_prob': [], 'prince': [], 'mode': 'float', 'encoding': 'utf-8'}
+    d = common.write_ruleset(os.path.join(common.scratch_dir('rules'), 'c08deep'), spec)
+    pcfg = common.load_grammar(d)
+    grid = gen_rulesets.grid_of(pcfg)
+    bp, cols, reps = grid[0]
+    m = corr_pq.find_prob_py(grid[0], cut)
+    want = sorted((bp * x * y for x in cols[0] for y in cols[1] if bp * x * y <= m), reverse=True)
+    wit = {'deep_restore': [n1, n2, list(cut), pops]}
+    try:
+        pq = corr_pq.fresh_queue(pcfg, corr_pq.saved_config_through_real_path(pcfg, m))
+    except Exception as e:
+        return [{'property': 'C08', 'kind': 'restore-raised', 'error': repr(e)[:200], 'witness': wit}]
+    got = []
+    for _ in range(min(pops, len(want))):
+        it = pq.next()
+        if it is None:
+            break
+        got.append(it['prob'])
+    if got != want[:len(got)] or len(got) < min(pops, len(want)):
+        return [{'property': 'C08', 'kind': 'resume-lost-preterminals', 'popped': len(got), 'remaining_in_run': len(want),
+                 'first_popped': [common.f2h(x) for x in got[:3]], 'first_expected': [common.f2h(x) for x in want[:3]],
+                 'saved_probability': repr(m), 'index_sum_at_cut': sum(cut), 'witness': wit}]
+    return []
+
+
 def session_tie_histories(ctx, viol, dist):
     """C08 at the level of the whole session (CrackingSession.run, the .sav file written and read by the real code): rulesets with
     exact ties between pre-terminals of different base structures; the session is quit exactly when pre-terminal k has been popped
@@ -494,6 +527,8 @@ def run(ctx, focus):
         cli_runs += cli_resume_flags(ctx, focus, violations, ctx.scale(1, 4))
         cases += cli_runs
         cases += session_tie_histories(ctx, violations, dist)
+        violations += deep_restore_case()
+        cases += 1
         # the program itself: quit by a typed q while guesses flow, another session whose name differs only after the last dot, resume
         from props import C15 as _c15
         vs_cli, info_cli = _c15.cli_interleaved_sessions('C08', 'c08audit', _c15.big_plain_spec())
@@ -525,6 +560,9 @@ def replay(ctx, payload, focus):
         common.use_impl()
         return _c15l.limited_resume_history(focus)[0]
     w = payload.get('violation', {}).get('witness') or payload.get('witness')
+    if w and w.get('deep_restore'):
+        n1_, n2_, cut_, pops_ = w['deep_restore']
+        return deep_restore_case(n1_, n2_, tuple(cut_), pops_)
     if w and w.get('trained'):
         return trained_one(ctx, focus, 'replay', w['passwords'], w['ngram'], w['coverage'], {}) or []
     if w and 'cli_history' in w:
